@@ -248,6 +248,9 @@ func init() {
 		tk[0] = c
 		var cell Value = tk
 		r.envChans = append(r.envChans, c)
+		if fr.fn.Name() == "NewTimer" {
+			c.oneShot = true
+		}
 		if r.timersQuiet && fr.fn.Name() == "NewTimer" {
 			c.envStopped, c.envQuiet = true, true
 		}
@@ -256,6 +259,7 @@ func init() {
 	reg(func(r *Run, fr *frame, args []Value) Value {
 		c := newEnvChan(r, "after")
 		c.elem = timeT(r)
+		c.oneShot = fr.fn.Name() == "After"
 		if r.timersQuiet {
 			c.envStopped, c.envQuiet = true, true
 		}
